@@ -120,10 +120,11 @@ def atomic(e):
 # ----------------------------------------------------------------------------------------------- values / env
 class V:
     """interpreter value: dexpr + static tag + optional python-side static information"""
-    __slots__ = ('e', 'tag', 'st')
+    __slots__ = ('e', 'tag', 'st', 'alias')
 
-    def __init__(self, e, tag='A', st=None):
-        self.e, self.tag, self.st = e, tag, st
+    def __init__(self, e, tag='A', st=None, alias=None):
+        # alias: name of the object attribute (`self.running_mean`) this value was read from - the same object
+        self.e, self.tag, self.st, self.alias = e, tag, st, alias
 
     def __repr__(self):
         return "V(%s,%s,%s)" % (self.e[0], self.tag, self.st)
@@ -155,7 +156,7 @@ def bind(v, env, k):
         return k(v, env)
     if atomic(v.e):
         return k(v, env)
-    ref = V(P(env.depth), v.tag, v.st)
+    ref = V(P(env.depth), v.tag, v.st, v.alias)
     return ('Let', v.e, k(ref, env.deeper()))
 
 
@@ -176,6 +177,8 @@ def assigned_names(stmts):
         elif isinstance(t, ast.Attribute):
             if isinstance(t.value, ast.Name) and t.value.id == 'self':
                 out.add('self.' + t.attr)
+            elif isinstance(t.value, ast.Name) and t.attr == 'data':
+                out.add(t.value.id)           # `x.data = v` : the tensor x (identified with its data) changes
 
     def walk(ss):
         for s in ss:
@@ -425,6 +428,7 @@ class Interp:
         if kind == 'wrapper':
             meta['accs'] = fr.acc_meta
             meta['rebinds'] = fr.rebinds
+            meta['rebind_params'] = getattr(fr, 'rebind_params', [])
             meta['multi'] = getattr(fr, 'multi', False)
             meta['ctor_dtype_kw'] = getattr(fr, 'ctor_dtype_kw', None)
             meta['out_kernel'] = getattr(fr, 'out_kernel', None)
@@ -444,12 +448,22 @@ class Interp:
         fr.in_closure = True
         fr.result_var = v
 
+        params = World.params_of(fd)
+        rb_names = []
+        for r in fr.rebinds:
+            if r['target'] not in params:
+                self.U(fr, fd, "wrapper %s rebinds the data of %s, which is not a parameter" % (fd.name, r['target']))
+            if r['target'] not in rb_names:
+                rb_names.append(r['target'])
+        rb_vals = [env.get(nm).e for nm in rb_names]          # the parameter's data when the wrapper returns
+
         def kend(e3):
             fr.acc_meta = [{'target': t, 'in_place': ip, 'line': ln, 'op': op} for (t, ip, ex, ln, op) in fr.accs]
             for (t, ip, ex, ln, op) in fr.accs:
                 if max_param(ex) >= e3.depth:
                     self.U(fr, clos, "accumulated value of %s refers to a local out of scope" % t)
-            return ('Tuple', [v.e] + [ex for (t, ip, ex, ln, op) in fr.accs])
+            fr.rebind_params = [(params.index(nm), 1 + len(fr.accs) + j) for j, nm in enumerate(rb_names)]
+            return ('Tuple', [v.e] + [ex for (t, ip, ex, ln, op) in fr.accs] + rb_vals)
         return self.exec_block(clos.body, e2, fr, kend)
 
     # ---- statements -------------------------------------------------------------------------------
@@ -622,10 +636,12 @@ class Interp:
         if t.attr == '_grad':
             self.record_acc(s, t, '=', self.ev(s.value, env, fr), env, fr)
             return cont(env)
-        if t.attr == 'data':
+        if t.attr == 'data' and isinstance(t.value, ast.Name) and env.has(base):
             v = self.ev(s.value, env, fr)
             fr.rebinds.append({'target': base, 'line': s.lineno, 'value': ast.unparse(s.value)})
-            return cont(env)
+            old = env.get(base)
+            # the tensor object (identified with its data) now holds v: visible to every holder of the object
+            return self.assign_name(base, V(v.e, old.tag, None, old.alias), env, cont)
         self.U(fr, s, "attribute assignment %s" % ast.unparse(t))
 
     def st_AugAssign(self, s, env, fr, cont):
@@ -918,7 +934,8 @@ class Interp:
             return self.ev(n.body if c[1] else n.orelse, env, fr)
         a, b = self.ev(n.body, env, fr), self.ev(n.orelse, env, fr)
         tg = a.tag if a.tag == b.tag else (a.tag if b.e == NONE else (b.tag if a.e == NONE else 'U'))
-        return V(('If', c, a.e, b.e), tg)
+        al = a.alias if b.e == NONE else (b.alias if a.e == NONE else (a.alias if a.alias == b.alias else None))
+        return V(('If', c, a.e, b.e), tg, None, al)    # `self.rm if cond else None` is self.rm or nothing
 
     def ex_BoolOp(self, n, env, fr):
         vs = [self.ev(x, env, fr) for x in n.values]
@@ -1086,7 +1103,7 @@ class Interp:
         if isinstance(n.value, ast.Name) and n.value.id == 'self' and fr.cls is not None:
             v = env.get('self.' + n.attr)
             if v is not None:
-                return v
+                return V(v.e, v.tag, v.st, 'self.' + n.attr)
             self.U(fr, n, "unknown attribute self.%s" % n.attr)
         u = ast.unparse(n)
         if isinstance(n.value, ast.Name) and not env.has(n.value.id):
@@ -1606,10 +1623,48 @@ class Interp:
         fd2.args.args = fd.args.args[1:]
         return self.bind_args(fd2, fr.mod, node, env, fr)
 
+    def effect_call(self, node, env, fr, k):
+        """a call F.<wrapper>(...) of a wrapper that rebinds the data of some of its tensor arguments (batch_norm's running
+        statistics): the attributes of self those arguments were read from change"""
+        f = node.func
+        if not (isinstance(f, ast.Attribute) and isinstance(f.value, ast.Name) and not env.has(f.value.id)):
+            return None
+        al = fr.mod.alias.get(f.value.id)
+        if not (al and al[0] == 'mod' and al[1] in ('functional', 'nn.functional')):
+            return None
+        modq = al[1]
+        if f.attr not in self.w.mods[modq].funcs:
+            return None
+        cn, meta = self.w.func('wrapper', modq, f.attr)
+        if not meta.get('rebind_params'):
+            return None
+        fd = self.w.mods[modq].funcs[f.attr]
+        args = self.bind_args(fd, self.w.mods[modq], node, env, fr)
+        app = V(('App', cn, [a.e for a in args] + [ERR]), 'A')
+
+        def after(r, e2):
+            def go(j, e3):
+                if j == len(meta['rebind_params']):
+                    return k(V(('Proj', 0, r.e), 'T'), e3)
+                pi, pos = meta['rebind_params'][j]
+                a = args[pi]
+                if a.alias is None:
+                    if a.e == NONE:
+                        return go(j + 1, e3)
+                    self.U(fr, node, "wrapper %s rebinds the data of argument %d, which is not an attribute of self" % (f.attr, pi))
+                old = e3.get(a.alias)
+                new = V(('If', ('IsNone', a.e), old.e, ('Proj', pos, r.e)), old.tag)
+                return bind(new, e3, lambda r2, e4: go(j + 1, e4.set(a.alias, V(r2.e, old.tag))))
+            return go(0, e2)
+        return bind(app, env, after)
+
     def inline_call(self, node, env, fr, k):
         """calls of the object's own methods (self.forward(..), super().__call__(..)) are executed inline"""
         if fr.cls is None or not isinstance(node, ast.Call):
             return None
+        eff = self.effect_call(node, env, fr, k)
+        if eff is not None:
+            return eff
         u = ast.unparse(node.func)
         q0, c0 = fr.cls
         target = None
@@ -1678,3 +1733,55 @@ class Interp:
             fr.cur = (modq, cd)
             e = after_init(None, ienv)
         return e, {'params': names, 'fparams': fparams, 'cparams': cparams, 'lines': (cd.lineno, cd.end_lineno)}
+
+    def run_layer_stateful(self, modq, clsname):
+        """a layer as a state machine: (init, step, attrs) with
+             init : dexpr over the constructor parameters            -> TupV of the attributes self.<a> (sorted names)
+             step : dexpr over [forward inputs..., training, attrs...] -> TupV (output :: attributes afterwards)"""
+        mod = self.w.mods[modq]
+        cd = mod.classes[clsname]
+        ini = self.find_method(modq, cd, '__init__')
+        call = self.find_method(modq, cd, '__call__')
+        entry = call if (call is not None and call[1].name != 'Module') else self.find_method(modq, cd, 'forward')
+        if entry is None or entry[1].name == 'Module' or ini is None or ini[1].name == 'Module':
+            return None
+        fparams = World.params_of(entry[2])[1:]
+        cparams = World.params_of(ini[2])[1:]
+        fr = Frame(mod, 'tensor', None)
+        fr.cls = (modq, cd)
+        fr.cur = (ini[0], ini[1])
+        attrs_box = []
+
+        def end_init(v, e):
+            names = sorted(k[5:] for k in e.vars if k.startswith('self.') and k != 'self.training')
+            if attrs_box and attrs_box[0] != names:
+                raise Untranslatable(mod.file, cd.lineno, "%s.__init__ defines different attributes on different paths" % clsname)
+            attrs_box.append(names)
+            return ('Tuple', [e.get('self.' + a).e for a in names])
+        ienv = Env({'self.training': V(TRUE, 'A')}, len(cparams))
+        init_e = self.call_method(ini[0], ini[1], ini[2], [V(P(j), 'A') for j in range(len(cparams))], ienv, fr, end_init)
+        if not attrs_box:
+            return None
+        attrs = attrs_box[0]
+        nf = len(fparams)
+        fann = {a.arg: (ast.unparse(a.annotation) if a.annotation is not None else '') for a in entry[2].args.args}
+        fargs = [V(P(i), 'T' if 'Tensor' in fann.get(nm, '') else 'U') for i, nm in enumerate(fparams)]
+        vars_ = {'self.training': V(P(nf), 'A')}
+        for j, a in enumerate(attrs):
+            vars_['self.' + a] = V(P(nf + 1 + j), 'A')
+        fr2 = Frame(mod, 'tensor', None)
+        fr2.cls = (modq, cd)
+        fr2.cur = (entry[0], entry[1])
+
+        def end_step(v, e):
+            return ('Tuple', [v.e] + [e.get('self.' + a).e for a in attrs])
+        step_e = self.call_method(entry[0], entry[1], entry[2], fargs, Env(vars_, nf + 1 + len(attrs)), fr2, end_step)
+        # does any path of forward change an attribute?
+        changes = False
+        for x in subexprs(step_e):
+            if x[0] == 'Tuple' and len(x[1]) == 1 + len(attrs):
+                for j in range(len(attrs)):
+                    if x[1][1 + j] != P(nf + 1 + j):
+                        changes = True
+        return {'init': init_e, 'step': step_e, 'attrs': attrs, 'fparams': fparams, 'cparams': cparams, 'changes': changes,
+                'lines': (cd.lineno, cd.end_lineno), 'init_fd': ini, 'entry': entry}
